@@ -71,6 +71,7 @@ func (w wsSocks) inFlight() (int64, int64) {
 func wsSettle(socks wsSocks, watchdog time.Duration, cond func() bool) (string, *quiesce.Snapshot) {
 	deadline := time.Now().Add(watchdog)
 	delay := 200 * time.Microsecond
+	confirmed := 0
 	for {
 		if cond() {
 			return "ok", nil
@@ -83,9 +84,18 @@ func wsSettle(socks wsSocks, watchdog time.Duration, cond func() bool) (string, 
 				if cond() {
 					return "ok", snap
 				}
-				return "stuck", snap
+				// kernel sockets are not the harness's own links: the verdict is only given when the
+				// same picture - nothing in flight, every goroutine blocked - is seen three times,
+				// 150 ms apart
+				confirmed++
+				if confirmed >= 3 {
+					return "stuck", snap
+				}
+				time.Sleep(150 * time.Millisecond)
+				continue
 			}
 		}
+		confirmed = 0
 		if time.Now().After(deadline) {
 			return "timeout", snap
 		}
@@ -386,7 +396,7 @@ func wsWorkload(seed int64, idx int, c wsCase, judge string, res *core.Result) {
 		case len(rc.seen) == 1 && !bytes.Equal(rc.seen[0], rc.req):
 			res.Violate("ws/handler-saw-a-request-nobody-sent", "%s: handler saw %d bytes starting %q, caller sent %d bytes starting %q", rc.tag, len(rc.seen[0]), head(rc.seen[0]), len(rc.req), head(rc.req))
 		}
-		if timedOut && !isDone() {
+		if timedOut { // what the callers report after the driver cancelled them says nothing
 			continue
 		}
 		switch {
@@ -404,7 +414,7 @@ func wsWorkload(seed int64, idx int, c wsCase, judge string, res *core.Result) {
 	}
 	mu.Unlock()
 	for _, sr := range srecs {
-		if timedOut && !isDone() {
+		if timedOut { // what the callers report after the driver cancelled them says nothing
 			continue
 		}
 		if len(sr.foreign) > 0 {
